@@ -190,6 +190,21 @@ def SpecStdDims (n : Nat) (w h : Nat) : Prop :=
 instance (n w h : Nat) : Decidable (SpecStdDims n w h) := by
   unfold SpecStdDims; infer_instance
 
+/-- no divisor of `k` among `lo + 1, …, lo + c` (tail-recursive scan from the top) -/
+def noDivFrom (k lo : Nat) : Nat → Bool
+  | 0 => true
+  | c + 1 => if k % (lo + c + 1) = 0 then false else noDivFrom k lo c
+
+/-- `SpecStdDims` with the "no squarer factorisation" clause checked only between the reported
+height and the integer square root - equivalent (Props: `spec_std_dims_fast_iff`) and cheap
+for huge board counts whose answer is close to square. -/
+def SpecStdDimsFast (n w h : Nat) : Prop :=
+  w % 12 = 0 ∧ h % 12 = 0 ∧ (w / 12) * (h / 12) = n / 3 ∧ h ≤ w ∧
+  noDivFrom (n / 3) (h / 12) (Nat.sqrt (n / 3) - h / 12) = true
+
+instance (n w h : Nat) : Decidable (SpecStdDimsFast n w h) := by
+  unfold SpecStdDimsFast; infer_instance
+
 /-! ### line protocol -/
 open Lean Rig.P
 
@@ -242,6 +257,8 @@ def handle (op : String) (j : Json) : R Json := do
     pure (Json.bool (decide (SpecFpgaBoard rs)))
   | "spec_std_dims" =>
     pure (Json.bool (decide (SpecStdDims (← nat j "n") (← nat j "w") (← nat j "h"))))
+  | "spec_std_dims_fast" =>
+    pure (Json.bool (decide (SpecStdDimsFast (← nat j "n") (← nat j "w") (← nat j "h"))))
   | "spec_link_vec" =>
     let v ← opt j "out" asPt
     pure (Json.bool (decide (dirVec (← int j "link") = v)))
